@@ -243,7 +243,12 @@ var c12Carriers = []func() stick.Value{
 func c12Run(c core.Case) core.Result {
 	// N = [pos, form, payload, name (-1 inline, -2 inline with dot), mod]
 	pos, form, pi, ni, mod := c.N[0], c.N[1], c.N[2], c.N[3], c.N[4]
-	payload := c12Payloads[pi]
+	var payload string
+	if np := len(c12Payloads); pi >= np { // a pair: index = first + np*(second+1)
+		payload = c12Payloads[pi%np] + c12Payloads[pi/np-1]
+	} else {
+		payload = c12Payloads[pi]
+	}
 	ext, typ := "", "html"
 	if ni >= 0 {
 		ext, typ = c12Names[ni].ext, c12Names[ni].typ
@@ -451,6 +456,22 @@ func c12Levels(tier string) []core.Level {
 				}
 			}
 		}},
+	}
+	if thorough(tier) {
+		lv = append(lv, core.Level{Name: "payload pairs: 31 positions x variable x every concatenation of two payloads x 24 names x {none, escape, escape(own type)}", Gen: func(emit func(core.Case)) {
+			np := len(c12Payloads)
+			for pos := 0; pos < c12Positions; pos++ {
+				for p1 := 0; p1 < np; p1++ {
+					for p2 := 0; p2 < np; p2++ {
+						for _, ni := range names {
+							for _, m := range []int{0, 2, 4} {
+								emit(core.Case{Fam: "print", N: []int{pos, 0, p1 + np*(p2+1), ni, m}})
+							}
+						}
+					}
+				}
+			}
+		}})
 	}
 	return lv
 }
